@@ -695,6 +695,39 @@ fn literal(parts: &[&str]) -> String {
       comments_after_type: None,
     }
     .to_string(),
+    // G6E <n|-> : tag without content type, `#6.n` / `#6`
+    "G6E" => Type2::TaggedData {
+      tag: a.parse::<u64>().ok().map(TagConstraint::Literal),
+      t: Type { type_choices: vec![], span: sp() },
+      span: sp(),
+      comments_before_type: None,
+      comments_after_type: None,
+    }
+    .to_string(),
+    // T1 <name_like 0/1> <op: .name | .. | ...> : Type1 `x <op> y` resp. `1 <op> y` (blanks around operators)
+    "T1" => {
+      let left = if a == "1" { Type2::Typename { ident: ident("x", 0), generic_args: None, span: sp() } } else { Type2::UintValue { value: 1, span: sp() } };
+      let operator = match b {
+        ".." => RangeCtlOp::RangeOp { is_inclusive: true, span: sp() },
+        "..." => RangeCtlOp::RangeOp { is_inclusive: false, span: sp() },
+        _ => match lookup_control_from_str(b) {
+          Some(ctrl) => RangeCtlOp::CtlOp { ctrl, span: sp() },
+          None => return "NONE".to_string(),
+        },
+      };
+      Type1 {
+        type2: left,
+        operator: Some(Operator {
+          operator,
+          type2: Type2::Typename { ident: ident("y", 0), generic_args: None, span: sp() },
+          comments_before_operator: None,
+          comments_after_operator: None,
+        }),
+        span: sp(),
+        comments_after_type: None,
+      }
+      .to_string()
+    }
     "GM" => Type2::DataMajorType { mt: a.parse().unwrap_or(0), constraint: b.parse::<u64>().ok().map(TagConstraint::Literal), span: sp() }
       .to_string(),
     "GA" => Type2::Any { span: sp() }.to_string(),
